@@ -283,6 +283,93 @@ theorem earlyExit_keeps_foul (t : Table) (s : ColSt) (rs : List Report)
     · simp only [hx, Bool.false_eq_true, if_false] at h ⊢
       exact ih _ h
 
+/-- a foul that cannot go away: an audit error was counted, or an auditor with data has a count that a `foul upon` clause
+forbids (counts only grow; a `require` clause can only be judged at the end and is not among these) -/
+def Doomed (t : Table) (s : ColSt) : Prop :=
+  s.errors > 0 ∨ ∃ p ∈ t, (s.tally p.1).hasData = true ∧
+    (fouledBy p.2.onBad (s.tally p.1).bad false = true ∨ fouledBy p.2.onGood (s.tally p.1).good false = true)
+
+theorem Doomed.fouls {t : Table} {s : ColSt} (h : Doomed t s) : fouls t s.tally s.errors = true := by
+  have mono : ∀ c n, fouledBy c n false = true → fouledBy c n true = true := by
+    intro c n; cases c <;> simp [fouledBy]
+  simp only [Shk.Verdict.fouls, Bool.or_eq_true, decide_eq_true_eq, List.any_eq_true, Bool.and_eq_true]
+  rcases h with h | ⟨p, hp, hd, hf⟩
+  · exact Or.inl h
+  · exact Or.inr ⟨p, hp, hd, hf.imp (mono _ _) (mono _ _)⟩
+
+theorem Doomed.step {t : Table} {s : ColSt} (e : Bool) (r : Report) (h : Doomed t s) :
+    Doomed t (collectReport t e s r).1 := by
+  have keep : ∀ c n k, fouledBy c n false = true → fouledBy c (n + k) false = true := by
+    intro c n k; cases c <;> simp [fouledBy]; omega
+  simp only [collectReport]
+  rcases h with h | ⟨p, hp, hd, hf⟩
+  · left; simp only; split <;> omega
+  · right
+    refine ⟨p, hp, ?_⟩
+    simp only
+    by_cases hn : p.1 = r.auditor
+    · simp only [hn, if_true]
+      rw [hn] at hd hf
+      refine ⟨bump_hasData _ _, ?_⟩
+      simp only [bump]
+      split
+      · exact hf.imp id (keep _ _ 1)
+      · split
+        · exact hf.imp (keep _ _ 1) id
+        · exact hf
+    · simp only [hn, if_false]
+      exact ⟨hd, hf⟩
+
+theorem Doomed.run {t : Table} (rs : List Report) : ∀ {s : ColSt}, Doomed t s → Doomed t (collectAll t false s rs).1 := by
+  induction rs with
+  | nil => intro s h; exact h
+  | cons r rs ih =>
+    intro s h
+    simp only [collectAll]
+    have hno : (collectReport t false s r).2 = false := by
+      simp only [collectReport, stopNow]; split <;> simp
+    simp only [hno, Bool.false_eq_true, if_false]
+    exact ih (h.step false r)
+
+/-- the state after a report does not depend on `-S` -/
+theorem collectReport_state (t : Table) (s : ColSt) (r : Report) :
+    (collectReport t true s r).1 = (collectReport t false s r).1 := rfl
+
+/-- **a `-S` stop is a foul that stands**: whenever `-S` stops the play, the same reports heard to the end without
+`-S` are a fouled play too — `-S` only anticipates the verdict, it never creates one (in particular it does not judge a
+`require` clause before the end). -/
+theorem early_stop_stands (t : Table) (s : ColSt) (rs : List Report)
+    (h : (collectAll t true s rs).2 = true) :
+    fouls t (collectAll t false s rs).1.tally (collectAll t false s rs).1.errors = true := by
+  induction rs generalizing s with
+  | nil => simp [collectAll] at h
+  | cons r rs ih =>
+    have hno : (collectReport t false s r).2 = false := by
+      simp only [collectReport, stopNow]; split <;> simp
+    simp only [collectAll] at h ⊢
+    simp only [hno, Bool.false_eq_true, if_false]
+    by_cases hx : (collectReport t true s r).2 = true
+    · -- the stopping report dooms the play; the rest of the reports cannot undo that
+      have hd : Doomed t (collectReport t false s r).1 := by
+        rw [← collectReport_state]
+        simp only [collectReport, stopNow] at hx ⊢
+        by_cases h3 : (r.code == 3) = true
+        · simp [h3] at hx
+        · by_cases h1 : (r.code == 1) = true
+          · left; simp [h1]
+          · simp only [h3, h1, Bool.false_eq_true, if_false, if_true] at hx
+            cases hl : t.lookup r.auditor with
+            | none => simp [hl] at hx
+            | some i =>
+              simp only [hl, Bool.or_eq_true] at hx
+              right
+              exact ⟨(r.auditor, i), lookup_mem t r.auditor i hl, by simp [bump_hasData], by simpa using hx⟩
+      exact (Doomed.run rs hd).fouls
+    · simp only [hx, Bool.false_eq_true, if_false] at h
+      rw [← collectReport_state] 
+      exact ih _ h
+
+
 /-- and `-S` only ever stops on a report: the tallies it stops with are those of the reports
 received so far, which the run without `-S` would have seen too (prefix property). -/
 theorem earlyExit_prefix (t : Table) (s : ColSt) (r : Report) (b : Bool) :
